@@ -77,7 +77,7 @@ BaseSet ==
                                                        st \in {"echoreq", "trreq"}, p \in {"seg1"}} \cup
     {Scmp("ip", "A", o, "none", st, 50002, "empty", 0, "seg1") : o \in {"A", "B"}, st \in {"echorep", "trrep"}} \cup
     {Scmp("ip", "A", o, "none", "err", 0, q, 50003, "seg1") : o \in {"A", "B"},
-         q \in {"udp", "udp0", "echoreq", "trreq", "echorep", "err", "tcp", "truncl4", "truncscion", "empty"}} \cup
+         q \in {"udp", "udp0", "echoreq", "trreq", "echorep", "trrep", "err", "tcp", "truncl4", "truncscion", "empty"}} \cup
     {Scmp("ip", "A", "A", "none", st, 50004, "empty", 0, "seg1") : st \in {"unkerr", "unkinfo"}} \cup
     {Scmp("svc", "CS", o, "none", st, 50005, "udp", 50006, "seg1") : o \in {"A", "V"}, st \in {"echorep", "err", "echoreq"}} \cup
     {D(m, "ip", "A", "A", "none", "udp", 40004, "echoreq", 0, "empty", 0, "seg1") : m \in {"trunc", "garbage"}} \cup
